@@ -805,6 +805,7 @@ def correspondence(ctx, model_ok=True):
            "samples": [dict(c, ops=c["ops"][:6]) if c["kind"] == "addr" else c
                        for c in [next(c for c in cases[1:] if c["kind"] == k) for k in ("addr", "arith", "csv")]],
            "model_runner": "Eval vm_compute in generated cases files (sharded coqc)", "failures": [], "broken": []}
+    out["all_cases"] = cases          # the driver runs the property oracle on these as well
     if law_bad:
         out["failures"].append(Failure({"kind": "csv", "ext": [0.0, 1.0, 0.0, 1.0, 0.0, 1.0], "n": [1, 1, 1], "vals": [law_bad[0]]},
                                        f"oracle law parse(fmt d) = d fails for {law_bad[0].hex()} ({len(law_bad)} of {law_n} doubles)"))
